@@ -864,8 +864,8 @@ func init() {
 	register(&Rule{ID: "C17.seplit", Floor: 5, Also: []string{"C05"},
 		Text: "MemFS and OrefaFS build and compare paths with the separator of the emulated OS (PathSeparator()): no string concatenation or prefix/suffix operation of these packages has a separator literal (\"/\", \"\\\\\") as operand - with a literal the code is right for one OS type only (a renamed directory keeps its descendants under the old key on the other)",
 		Run:  c17SepLit})
-	register(&Rule{ID: "C04.resolved", Floor: 2, Also: []string{"C05"},
-		Text: "decisions of MemFS that compare two paths (same entry? one below the other?) compare the paths the walk resolved (PathIterator.Path() of the walk results), never the absolute form of the caller's strings: two lexically different names can reach the same entry through a symbolic link to a directory",
+	register(&Rule{ID: "C04.resolved", Floor: 1, Also: []string{"C05"},
+		Text: "the decision of MemFS.Rename whether the destination lies below the source compares the paths the walk resolved (PathIterator.Path() of the walk results), never the absolute form of the caller's strings: two lexically different names can reach the same entry through a symbolic link to a directory",
 		Run:  c04Resolved})
 	register(&Rule{ID: "C06.recheck", Floor: 3, Also: []string{"C01"},
 		Text: "where a creating call of MemFS finds, under the directory lock, that the name it is about to create exists after all, it answers 'file exists' (the answer of the sequential order in which the other call came first): the error of that branch is the exists-class entry of the error table (or its Windows counterpart), never the stale status of the unlocked walk",
@@ -1008,11 +1008,9 @@ func c04Resolved(rc *RuleCtx) {
 		}
 		eachInstr(f, func(in ssa.Instruction) {
 			switch x := in.(type) {
-			case *ssa.BinOp:
-				if x.Op == token.EQL || x.Op == token.NEQ {
-					check(x, x.X, x.Y, x.Op.String())
-				}
 			case *ssa.Call:
+				// (equality of the two paths is not an obligation: the identity of the two nodes is what decides
+				// "same entry", see C05.samenode, and makes a lexical comparison next to it harmless)
 				if fn := calleeFunc(x); fn != nil && fn.Pkg() != nil && fn.Pkg().Path() == "strings" && (fn.Name() == "HasPrefix" || fn.Name() == "HasSuffix") && len(x.Call.Args) == 2 {
 					check(x, x.Call.Args[0], x.Call.Args[1], "strings."+fn.Name())
 				}
@@ -2180,6 +2178,120 @@ func c03KeepID(rc *RuleCtx) {
 					rc.bad(cons, st.Pos(), "the argument is stored even when it is -1: Chown(name, -1, gid) makes the owner -1 instead of leaving it unchanged")
 				}
 			})
+		}
+	}
+}
+
+func init() {
+	register(&Rule{ID: "C05.samenode", Floor: 2, Also: []string{"C01"},
+		Text: "rename(2) between two hard links of one file does nothing: in Rename of MemFS and OrefaFS, every path to the first change of the tree has compared the node found under the old name with the node found under the new name and seen them differ (or seen that nothing is under the new name) - otherwise the file is released and re-inserted under one name, and a link is lost",
+		Run:  c05SameNode})
+}
+
+func c05SameNode(rc *RuleCtx) {
+	a := lockAnalysisFor(rc.C)
+	prims := computeMapPrims(rc.C, a, map[string]bool{"memfs": true, "orefafs": true})
+	for _, pk := range []struct{ pkg, typ string }{{"memfs", "MemFS"}, {"orefafs", "OrefaFS"}} {
+		f := rc.C.method(pk.pkg, pk.typ, "Rename")
+		cons := pk.pkg + ".(*" + pk.typ + ").Rename same file under both names"
+		if f == nil {
+			rc.anchor(cons)
+			continue
+		}
+		// first change of the tree: entry-map updates, tree primitives, release calls
+		var muts []ssa.Instruction
+		for _, u := range entryMapUpdates(f) {
+			if enclosingRangeHeader(u.in) == nil {
+				muts = append(muts, u.in)
+			}
+		}
+		eachCall(f, func(ci ssa.CallInstruction) {
+			if _, isDefer := ci.(*ssa.Defer); isDefer {
+				return
+			}
+			if fn := calleeFunc(ci); fn != nil && (fn.Name() == "delete" || fn.Name() == "remove") {
+				muts = append(muts, ci)
+				return
+			}
+			for _, callee := range a.calleesOf(ci) {
+				if len(prims[callee]) > 0 && !isEntryPoint(callee) {
+					muts = append(muts, ci)
+				}
+			}
+		})
+		if len(muts) == 0 {
+			rc.anchor("changes of the tree in " + funcName(f))
+			continue
+		}
+		// paramIndex does not count the receiver: 0 is the old name, 1 the new one
+		isOld := func(v ssa.Value) bool { return derivesFromParam(stripIface(resolve1(v)), f, 0, 0) && !derivesFromParam(stripIface(resolve1(v)), f, 1, 0) }
+		isNew := func(v ssa.Value) bool { return derivesFromParam(stripIface(resolve1(v)), f, 1, 0) && !derivesFromParam(stripIface(resolve1(v)), f, 0, 0) }
+		isNodeVal := func(v ssa.Value) bool {
+			t := v.Type()
+			if _, ok := t.Underlying().(*types.Interface); ok {
+				return true
+			}
+			_, ok := t.Underlying().(*types.Pointer)
+			return ok
+		}
+		bad := ""
+		for _, m := range muts {
+			paths, complete := pathsTo(f, m, 8000)
+			if !complete {
+				bad = "too many paths to decide"
+				break
+			}
+			for _, p := range paths {
+				if !feasiblePath(p) {
+					continue
+				}
+				ok := false
+				for _, fa := range p {
+					c, truth := normCond(fa.Cond, fa.Truth)
+					switch x := c.(type) {
+					case *ssa.BinOp:
+						if x.Op != token.EQL && x.Op != token.NEQ {
+							continue
+						}
+						differ := (x.Op == token.NEQ) == truth
+						same := (x.Op == token.EQL) == truth
+						if isNodeVal(x.X) && ((isOld(x.X) && isNew(x.Y)) || (isOld(x.Y) && isNew(x.X))) && differ {
+							ok = true
+						}
+						// nothing under the new name
+						if same && ((isNew(x.X) && isNilConst(x.Y)) || (isNew(x.Y) && isNilConst(x.X))) {
+							ok = true
+						}
+					case *ssa.Call:
+						if fn := calleeFunc(x); fn != nil && fn.Name() == "isNotExist" && truth {
+							for _, arg := range callArgs(x) {
+								if isNew(arg) {
+									ok = true
+								}
+							}
+						}
+					case *ssa.Extract:
+						// comma-ok of the index lookup of the new name: false
+						if lk, isL := x.Tuple.(*ssa.Lookup); isL && x.Index == 1 && !truth && isNew(lk.Index) {
+							ok = true
+						}
+					}
+				}
+				if !ok {
+					if os.Getenv("AVFSLINT_DEBUG") != "" {
+						fmt.Fprintln(os.Stderr, "samenode path:", dbgFacts(rc.C, p))
+					}
+					bad = "a path reaches the change at " + rc.C.pos(m.Pos()) + " without having compared the node under the old name with the node under the new name: for two hard links of one file the file is released and moved onto itself, and one of its names disappears (rename(2) does nothing in that case)"
+				}
+			}
+			if bad != "" {
+				break
+			}
+		}
+		if bad != "" {
+			rc.bad(cons, f.Pos(), bad)
+		} else {
+			rc.good(cons, f.Pos(), fmt.Sprintf("%d change(s) of the tree, each reached only after the two nodes were seen to differ (or the new name to be free)", len(muts)))
 		}
 	}
 }
